@@ -302,8 +302,13 @@ void mp::internal::NLFileReader<File>::Read(
     fmt::internal::MemoryBuffer<char, 1> &array) {
   array.resize(size_ + 1);
   std::size_t offset = 0;
-  while (offset < size_)
-    offset += file_.read(&array[offset], size_ - offset);
+  while (offset < size_) {
+    std::size_t count = file_.read(&array[offset], size_ - offset);
+    if (count == 0)          // the file is shorter than its reported size
+      throw Error("unexpected end of file after {} of {} bytes",
+                  offset, size_);
+    offset += count;
+  }
   array[size_] = 0;
 }
 
